@@ -14,7 +14,8 @@
 //!   c17.tdfdec <hex>                     from_tdf_bytes                    -> fonts observation | err class
 //!   c17.utf8 <hex>                       [from_utf8 is ok, lossy bytes…]
 //!
-//! <font>  = <w> <h> <length> <n> <gh> <hex of n*gh bytes>   (n glyphs with codes 0..n, each gh row bytes)
+//! <font>  = <w> <h> <length> <n> <gh> <hex of n*gh bytes>   (n glyphs with codes 0..n, each gh row bytes; codes that
+//!           are not chars are left out of the map)
 //! <fonts> = <k> { <namehex> <type 0|1|2> <spaces> <m> { <index 0..93> <w> <h> <datahex> }*m }*k
 //! font observation = [w, h, length, n, { code, rows, row bytes… }*n in code order]
 //! fonts observation = [k, { namelen, name bytes…, type, spaces, 94 × has_char, status, len, bytes… }*k] where the
@@ -83,7 +84,10 @@ fn build_font(a: &[&str]) -> (BitFont, usize) {
     f.length = length;
     let mut m = HashMap::new();
     for i in 0..n {
-        m.insert(char::from_u32(i as u32).unwrap(), Glyph { data: data[i * gh..(i + 1) * gh].to_vec() });
+        // codes that are not chars (0xD800..=0xDFFF) cannot be keys: a table that spans them has a hole there
+        if let Some(c) = char::from_u32(i as u32) {
+            m.insert(c, Glyph { data: data[i * gh..(i + 1) * gh].to_vec() });
+        }
     }
     f.glyphs = m;
     (f, 6)
